@@ -5,7 +5,7 @@
    The connection level (H1/ConnH1.v: header extent, body readers, keep-alive reuse) is tied to src/h1.c by the running server under
    random TCP segmentation (props/h1conn.py <-> extracted run_conn). *)
 From Coq Require Import List ZArith.
-From LV Require Import Base.Bytes Gen.GenBurl Gen.GenH1 Url.UrlModel H1.H1Model H1.H1Proofs Resp.RespModel H1.ConnH1 H1.ConnH1Proofs.
+From LV Require Import Base.Bytes Gen.GenBurl Gen.GenH1 Url.UrlModel H1.H1Model H1.H1Proofs H1.H1Whole Resp.RespModel H1.ConnH1 H1.ConnH1Proofs.
 Import ListNotations.
 Local Open Scope N_scope.
 
@@ -30,6 +30,28 @@ Theorem reject_te_not_chunked_or_http10 : forall st v st',
   v = [] /\ st' = st \/ (st_http11 st = true /\ eq_icase v s_chunked = true /\ st_rlen st <> (-1)%Z /\ st_rlen st' = (-1)%Z).
 Proof. exact te_step. Qed.
 Print Assumptions reject_te_not_chunked_or_http10.
+
+(* an accepted HTTP/1.1 request has a host: a Host field that passed the host policy, or the authority of an absolute-form target *)
+Theorem http11_request_without_host_is_rejected : forall flags block o,
+  h1_parse flags block = H1Ok o -> o_http11 o = true -> o_host o <> None.
+Proof. exact http11_without_host_is_rejected. Qed.
+Print Assumptions http11_request_without_host_is_rejected.
+
+(* a NUL byte anywhere in the request line or header section refuses the request also with header-strict off, the one mode in which
+   nothing else looks at control bytes (the 400 that fix d045690 restored; with header-strict on the strict line checks refuse it, which
+   the correspondence runs exercise) *)
+Theorem nul_is_rejected_in_lenient_mode : forall flags block o l1 hl,
+  has_flag flags OPT_HEADER_STRICT = false ->
+  head_lines (split_lines block []) = Some (l1 :: hl) ->
+  h1_parse flags block = H1Ok o -> existsb (N.eqb 0) (concat (l1 :: hl)) = false.
+Proof. exact nul_is_rejected_without_header_strict. Qed.
+Print Assumptions nul_is_rejected_in_lenient_mode.
+
+(* GET / HEAD with a declared body pass only where server.http-parseopts asks for it (method-get-body) *)
+Theorem get_with_body_is_rejected_by_default : forall flags block o,
+  h1_parse flags block = H1Ok o -> (o_rlen o <> 0)%Z -> (o_method o <= M_HEAD)%Z -> has_flag flags OPT_METHOD_GET_BODY = true.
+Proof. exact get_with_body_needs_the_option. Qed.
+Print Assumptions get_with_body_is_rejected_by_default.
 
 (* ---- the connection: where one message ends and the next begins ---- *)
 
